@@ -21,6 +21,7 @@ import (
 	"verif/harness/internal/c14"
 	"verif/harness/internal/c19"
 	"verif/harness/internal/c20"
+	"verif/harness/internal/corr"
 	"verif/harness/internal/fw"
 	"verif/harness/internal/stream"
 	"verif/harness/internal/victim"
@@ -111,6 +112,24 @@ func main() {
 	case "C01":
 		res.Rule = "25 real signatures (0..5 params, with/without context, four result shapes, raw params, custom (Un)Marshaler, custom encoder/decoder pair) x argument and result values from the property's classes (nil pointers, nil vs empty slices/maps, integer extremes, -0, 1e308, HTML/control/multi-byte strings, byte slices, raw JSON, unserialisable values) x {custom, http, ws} x 5 formatters; distinct = (method, transport, formatter, values, class); non-trivial = the handler was reached"
 		err = c01.Run(d, res, *seed, n(4000, 60000))
+	case "C02":
+		res.Rule = "N concurrent blocked calls released in a chosen completion order: every permutation for N <= 3 (4 and 5: sampled in quick / all resp. 40 in thorough), random orders for N in 6..25; seed-driven delays at registration, write, lookup, delivery and delete; each call must return exactly its own token and be executed once; the client endpoint's hook trace is replayed through Jrpc.Corr; plus an HTTP server answering with foreign / mistyped / missing ids; distinct = (N, order)"
+		err = corr.Concurrent(d, res, *seed, thorough)
+	case "C03":
+		res.Rule = "fault kinds {FIN, RST, blackhole} x positions {before, inside header, mid-payload, before last byte, after} x directions x frame of a workload (calls, a notification, a retry-tagged call) x calls issued right after the strike / in the reconnect window / after recovery (x second fault, thorough); oracle: a call is lost iff it has not returned although a later probe round-tripped or the client was closed; the client endpoint's hook trace is replayed through Jrpc.Corr; distinct = (fault, position, direction, frame, timing)"
+		err = corr.FaultGrid(d, res, *seed, thorough, "C03")
+		if err == nil {
+			err = corr.SweepVsExecutor(d, res, *seed, false)
+		}
+		if err == nil {
+			err = corr.StaleDelete(d, res, *seed)
+		}
+	case "C04":
+		res.Rule = "the C03 fault grid with per-token execution counters in the handlers and per-token request frame counts at the proxy, call kinds {plain, notification, retry-tagged}; distinct = (fault, position, direction, frame, timing)"
+		err = corr.FaultGrid(d, res, *seed+1000, thorough, "C04")
+	case "C18":
+		res.Rule = "a mixed workload (queued, written and awaiting calls, a 400 kB response being read, a stream, a connection loss with calls in the reconnect window and after) with the closer fired at sampled occurrences (first, last, random) of each of 25 yield-point sites (hook gates), plus the sweep-versus-executor schedule with the closer as observer and closers of one-shot clients; distinct = (site, occurrence)"
+		err = corr.CloseEverywhere(d, res, *seed, thorough)
 	case "C05":
 		res.Rule = "backoff: grid of (minDelay, maxDelay) x attempts -2..N x repetitions (implementation's own jitter); distinct = (min, max, attempt); non-trivial = delay still growing (or every 50th capped attempt)"
 		err = c05.RunBackoff(d, res, thorough, corpus)
